@@ -5,8 +5,9 @@ import CoclsModel.MutexProofs
 Model: `Mutex.lean` (micro-step model of `cocls::mutex`, tied to `mutex.h` by the step-for-step replay of
 `checks/c07.py`).  Proofs: `MutexProofs.lean` (invariant `Inv`, preserved by every activity).
 
-Quantifier of every theorem: **every** configuration `c` (any number of agents, any rounds/flavours/release styles)
-that satisfies the totalisation `c.WF` (`co_await lock()` occurs only in coroutines), and **every** state `s` with
+Quantifier of every theorem: **every** configuration `c` (any number of agents, any rounds: acquisition flavour
+`lock`/`try_`/`co`/`cb`, way of giving the ownership up `x`/`d`/`a`/`g`/`m`, own ownership object or the shared slot; the
+transfer to OS threads additionally needs `c.WFT`), and **every** state `s` with
 `Reachable c s`, i.e. every state reached from `init c` by **any** finite sequence of agent activities `(t, a)`
 ("agent `a`'s code runs on OS thread `t` up to and including its next atomic operation") each of which is permitted by
 the guard `canRun` — `s.pc a ∉ {parked, done}` and (`s.pc a = blocked → s.flag a`) — an over-approximation of what the
@@ -33,8 +34,8 @@ example : (agentStep cfgEx (init cfgEx) 0 0).1.pc 0 = Pc.crit ∧
 /-- **Mutual exclusion.** In every state reachable by guarded agent activities (any number of agents, rounds,
     flavours, release styles, any interleaving, any assignment of activities to OS threads) at most one agent is an
     owner. -/
-theorem c07_mutex (hwf : c.WF) (hs : Reachable c s) : ∀ a b, Owner s a → Owner s b → a = b :=
-  (inv_reachable hwf hs).excl
+theorem c07_mutex (hs : Reachable c s) : ∀ a b, Owner s a → Owner s b → a = b :=
+  (inv_reachable hs).excl
 
 /- after the hand-over of scenario `runB`, 1 is the owner, 0 is not any more, 2 is still queued -/
 example : Reachable cfgEx sB := reachable_of_run _ runB (by decide)
@@ -43,8 +44,8 @@ example : Owner sB 1 ∧ ¬ Owner sB 0 ∧ ¬ Owner sB 2 ∧ sB.queue = [2] := b
 example : Reachable cfgSy sS ∧ Owner sS 0 ∧ ¬ Owner sS 1 ∧ sS.pc 1 = Pc.blocked := ⟨reachable_of_run _ runS (by decide), by decide⟩
 
 /-- the critical-section counter never exceeds one -/
-theorem c07_mutex_incs (hwf : c.WF) (hs : Reachable c s) : s.incs ≤ 1 := by
-  have h := inv_reachable hwf hs
+theorem c07_mutex_incs (hs : Reachable c s) : s.incs ≤ 1 := by
+  have h := inv_reachable hs
   by_cases hex : ∃ a, s.pc a = Pc.afterCs
   · obtain ⟨a, ha⟩ := hex
     rw [h.incsA a ha]; exact Nat.le_refl 1
@@ -53,25 +54,25 @@ theorem c07_mutex_incs (hwf : c.WF) (hs : Reachable c s) : s.incs ≤ 1 := by
 example : (arun cfgEx (init cfgEx) (runB ++ [(0,1)])).incs = 1 ∧ sB.incs = 0 := by decide
 
 /-- the overlap flag of every critical-section event is false -/
-theorem c07_no_overlap (hwf : c.WF) (hs : Reachable c s) (t a : Nat) (x r : Nat) (ov : Bool)
+theorem c07_no_overlap (hs : Reachable c s) (t a : Nat) (x r : Nat) (ov : Bool)
     (hev : Ev.cs x r ov ∈ (agentStep c s t a).2.1) : ov = false := by
-  have h := inv_reachable hwf hs
+  have h := inv_reachable hs
   obtain ⟨hpc, _, _, hov⟩ := step_cs_event c s t a x r ov hev
   have : s.incs = 0 := by
     apply h.incsN
     intro b hb
-    have := h.excl a b (by simp [Owner, hpc, isOwner]) (by simp [Owner, hb, isOwner])
+    have := h.excl a b (by rcases hpc with e | e <;> simp [Owner, e, isOwner]) (by simp [Owner, hb, isOwner])
     subst this
-    rw [hpc] at hb; cases hb
+    rcases hpc with e | e <;> rw [e] at hb <;> cases hb
   simp [hov, this]
 
 example : (agentStep cfgEx sB 0 1).2.1 = [Ev.cs 1 0 false, Ev.csOp 0 1] := by decide
 
 /-- **Each request is granted exactly once (counting form).** `grants a` + failed `try_lock`s = completed rounds
     (+ 1 while the agent holds the lock in its current round). -/
-theorem c07_grant_once (hwf : c.WF) (hs : Reachable c s) (a : Nat) :
+theorem c07_grant_once (hs : Reachable c s) (a : Nat) :
     s.grants a + s.fails a = s.round a + (if Holding s a then 1 else 0) ∧ s.grants a ≤ s.round a + 1 := by
-  have h := (inv_reachable hwf hs).gr a
+  have h := (inv_reachable hs).gr a
   refine ⟨h, ?_⟩
   split at h <;> omega
 
@@ -82,49 +83,49 @@ example : (sS.grants 2, sS.fails 2, sS.round 2) = (0, 1, 1) := by decide
 
 /-- **Each request `(agent, round)` is granted at most once**; it has been granted or (for `try_lock`) failed exactly
     once iff the round is completed or the agent currently holds the lock for it. -/
-theorem c07_grant_once_request (hwf : c.WF) (hs : Reachable c s) (a r : Nat) :
+theorem c07_grant_once_request (hs : Reachable c s) (a r : Nat) :
     s.grantReqs.count (a, r) ≤ 1 ∧
     s.grantReqs.count (a, r) + s.failReqs.count (a, r) = (if r < s.round a ∨ (r = s.round a ∧ Holding s a) then 1 else 0) ∧
     ((a, r) ∈ s.failReqs → ∃ rd, (c.rounds a)[r]? = some rd ∧ rd.fl = Flavour.try_) := by
-  have h := inv_reachable hwf hs
+  have h := inv_reachable hs
   have hg := h.greq a r
   refine ⟨?_, hg, h.failT a r⟩
   split at hg <;> omega
 
 example : sZ.grantReqs = [(0, 0), (1, 0), (2, 0), (2, 1)] ∧ sZ.failReqs = [] ∧ sS.failReqs = [(2, 0)] := by decide
 
-theorem c07_grantReqs_nodup (hwf : c.WF) (hs : Reachable c s) : s.grantReqs.Nodup := by
+theorem c07_grantReqs_nodup (hs : Reachable c s) : s.grantReqs.Nodup := by
   rw [List.nodup_iff_count]
   intro ⟨a, r⟩
-  exact (c07_grant_once_request hwf hs a r).1
+  exact (c07_grant_once_request hs a r).1
 
 example : sB.grantReqs = [(0, 0), (1, 0)] := by decide
 
 /-- at quiescence every configured request has been granted exactly once (or, for `try_lock`, failed) -/
-theorem c07_granted_at_quiescence (hwf : c.WF) (hs : Reachable c s) (a : Nat) (ha : a < c.n) (hd : s.pc a = Pc.done)
+theorem c07_granted_at_quiescence (hs : Reachable c s) (a : Nat) (ha : a < c.n) (hd : s.pc a = Pc.done)
     (r : Nat) (hr : r < (c.rounds a).length) :
     s.grantReqs.count (a, r) + s.failReqs.count (a, r) = 1 := by
-  have h := inv_reachable hwf hs
+  have h := inv_reachable hs
   have := (h.rnd a).2.2 hd ha
-  rw [(c07_grant_once_request hwf hs a r).2.1, if_pos (Or.inl (by omega))]
+  rw [(c07_grant_once_request hs a r).2.1, if_pos (Or.inl (by omega))]
 
 example : (∀ a, a < 3 → sZ.pc a = Pc.done) ∧ sZ.grantReqs.length = 4 := by decide
 
 /-- every grant leads to exactly one critical-section entry -/
-theorem c07_enter_once (hwf : c.WF) (hs : Reachable c s) (a : Nat) :
+theorem c07_enter_once (hs : Reachable c s) (a : Nat) :
     s.grantLog.count a + (if Entering s a then 1 else 0) = s.grants a :=
-  (inv_reachable hwf hs).glog a
+  (inv_reachable hs).glog a
 
 example : sZ.grantLog = [0, 1, 2, 2] ∧ sB.grantLog = [0] ∧ Entering sB 1 := by decide
 
 /-- **A waiting agent is registered exactly once**: a parked coroutine (and a blocked waiter whose flag is not set)
     has exactly one node in `queue ++ stack`; nobody else (except the found-null acquirer before its `build_queue`)
     has one. -/
-theorem c07_resume_once (hwf : c.WF) (hs : Reachable c s) (a : Nat) :
+theorem c07_resume_once (hs : Reachable c s) (a : Nat) :
     s.queue.count a + (nodesOf s.req).count a = (if Listed s a then 1 else 0) ∧
     (s.pc a = Pc.parked → s.queue.count a + (nodesOf s.req).count a = 1) ∧
     (s.queue ++ nodesOf s.req).Nodup := by
-  have h := inv_reachable hwf hs
+  have h := inv_reachable hs
   refine ⟨h.cnt a, ?_, ?_⟩
   · intro hp
     rw [h.cnt a, if_pos (show Listed s a from Or.inl (by simp [hp, isWaiting]))]
@@ -141,61 +142,63 @@ example : sA.pc 1 = Pc.parked ∧ nodesOf sA.req = [] ∧ sA.queue = [1, 2] := b
 /-- **A parked coroutine is resumed only by a hand-over, once**: an activity of another agent `x` leaves it parked
     unless `x` is the owner handing the lock to the head of the queue, which is `a`; then `a` is at `crit`,
     owner, granted once more and no longer registered anywhere — so no second hand-over can reach it. -/
-theorem c07_resume_once_step (hwf : c.WF) (hs : Reachable c s) (t x a : Nat) (hx : canRun s x = true)
+theorem c07_resume_once_step (hs : Reachable c s) (t x a : Nat) (hx : canRun s x = true)
     (hp : s.pc a = Pc.parked) :
     let s' := (agentStep c s t x).1
     (s'.pc a = Pc.parked ∧ s'.grants a = s.grants a) ∨
-    (grantee s x = some a ∧ s'.pc a = Pc.crit ∧ s'.grants a = s.grants a + 1 ∧ a ∉ s'.queue ∧ a ∉ nodesOf s'.req) := by
+    (grantee c s x = some a ∧ s'.pc a = Pc.crit ∧ s'.grants a = s.grants a + 1 ∧ a ∉ s'.queue ∧ a ∉ nodesOf s'.req) := by
   intro s'
-  have h := inv_reachable hwf hs
+  have h := inv_reachable hs
   have hax : a ≠ x := by rintro rfl; simp [canRun, hp] at hx
-  have h' : Inv c s' := inv_step hwf h t hx
-  have hpc := step_pc_other c s t x a hax
-  by_cases hg : grantee s x = some a
+  have h' : Inv c s' := inv_step h t hx
+  have hF := h.step_frame t x
+  have hpc := hF.pc a hax
+  have hgr := hF.grants a hax
+  by_cases hg : grantee c s x = some a
   · right
     have hk := h.kindP a hp
     have hpc' : s'.pc a = Pc.crit := by rw [hpc, if_pos ⟨hg, hk⟩]
-    obtain ⟨k, he, rest, hq⟩ := step_handOver c s t x a hg
-    have hsp := handOver_spec c { s with incs := k } t x a rest hq
     have hc := h'.cnt a
     rw [if_neg (by simp [Listed, hpc', isWaiting])] at hc
     refine ⟨hg, hpc', ?_, ?_, ?_⟩
     · show (agentStep c s t x).1.grants a = _
-      rw [he, hsp.2.2.1]; simp
+      rw [hgr, if_pos hg]
     · rw [← List.count_eq_zero]; omega
     · rw [← List.count_eq_zero]; omega
   · left
     have hpc' : s'.pc a = Pc.parked := by rw [hpc, if_neg (fun hh => hg hh.1), hp]
     refine ⟨hpc', ?_⟩
     show (agentStep c s t x).1.grants a = _
-    rw [step_grants_other c s t x a hax, if_neg hg]
+    rw [hgr, if_neg hg]
 
 /- `sA → sB` is the hand-over to 1 (second alternative); the step before it left 1 parked (first alternative) -/
-example : grantee sA 0 = some 1 ∧ sA.pc 1 = Pc.parked ∧ sB.pc 1 = Pc.crit ∧ sB.grants 1 = sA.grants 1 + 1 ∧
+example : grantee cfgEx sA 0 = some 1 ∧ sA.pc 1 = Pc.parked ∧ sB.pc 1 = Pc.crit ∧ sB.grants 1 = sA.grants 1 + 1 ∧
     1 ∉ sB.queue ∧ 1 ∉ nodesOf sB.req := by decide
-example : grantee sP 0 = none ∧ (agentStep cfgEx sP 0 0).1.pc 1 = Pc.parked := by decide
+example : grantee cfgEx sP 0 = none ∧ (agentStep cfgEx sP 0 0).1.pc 1 = Pc.parked := by decide
 
 /-- **A blocked thread is woken only by a hand-over, once**: the flag of a blocking waiter whose request is pending
     stays clear under every activity of another agent `x`, unless `x` is the owner handing the lock to the head of
     the queue, which is `a`; then the flag is set, `a` is the owner, granted once more and registered nowhere. -/
-theorem c07_wake_once_step (hwf : c.WF) (hs : Reachable c s) (t x a : Nat) (hx : canRun s x = true) (hax : a ≠ x)
+theorem c07_wake_once_step (hs : Reachable c s) (t x a : Nat) (hx : canRun s x = true) (hax : a ≠ x)
     (hw : (s.pc a = Pc.waitFlag ∨ s.pc a = Pc.blocked) ∧ s.flag a = false) :
     let s' := (agentStep c s t x).1
     s'.pc a = s.pc a ∧
     ((s'.flag a = false ∧ s'.grants a = s.grants a) ∨
-     (grantee s x = some a ∧ s'.flag a = true ∧ Owner s' a ∧ s'.grants a = s.grants a + 1 ∧
+     (grantee c s x = some a ∧ s'.flag a = true ∧ Owner s' a ∧ s'.grants a = s.grants a + 1 ∧
       a ∉ s'.queue ∧ a ∉ nodesOf s'.req)) := by
   intro s'
-  have h := inv_reachable hwf hs
-  have h' : Inv c s' := inv_step hwf h t hx
-  have hk := h.kindW a hw.1
+  have h := inv_reachable hs
+  have h' : Inv c s' := inv_step h t hx
+  have hk : flOf c s a ≠ some Flavour.co := by
+    rcases h.kindW a hw.1 with e | e <;> rw [e] <;> simp
+  have hF := h.step_frame t x
   have hpc : s'.pc a = s.pc a := by
     show (agentStep c s t x).1.pc a = _
-    rw [step_pc_other c s t x a hax, if_neg (fun hh => by rw [hk] at hh; cases hh.2)]
-  have hfl := step_flag_other c s t x a hax
-  have hgr := step_grants_other c s t x a hax
+    rw [hF.pc a hax, if_neg (fun hh => hk hh.2)]
+  have hfl := hF.flag a hax
+  have hgr := hF.grants a hax
   refine ⟨hpc, ?_⟩
-  by_cases hg : grantee s x = some a
+  by_cases hg : grantee c s x = some a
   · right
     have hf' : s'.flag a = true := by
       show (agentStep c s t x).1.flag a = _
@@ -226,21 +229,22 @@ example : sS.pc 1 = Pc.blocked ∧ sS.flag 1 = false ∧ (agentStep cfgSy sS 0 0
     last thing the publishing activity does with the agent: in the same step the agent becomes `parked`, the
     publishing thread drops it (`cur t = none`), the thread's step ends (`Outcome.op`), the agent is registered once
     in the stack and its code is not runnable. -/
-theorem c07_not_while_suspending (hwf : c.WF) (hs : Reachable c s) (t a : Nat) (prev : Seen)
-    (hpc : s.pc a = Pc.sub prev) (hseen : seenOf s.req = prev) (hprev : prev ≠ Seen.null) (hk : c.kind a = AKind.coro) :
+theorem c07_not_while_suspending (hs : Reachable c s) (t a : Nat) (prev : Seen)
+    (hpc : s.pc a = Pc.sub prev) (hseen : seenOf s.req = prev) (hprev : prev ≠ Seen.null)
+    (hk : flOf c s a = some Flavour.co) :
     let r := agentStep c s t a
     r.1.pc a = Pc.parked ∧ r.2.2 = Outcome.op ∧ r.1.cur t = none ∧ canRun r.1 a = false ∧
-    r.1.req = Elem.node a :: s.req ∧ (nodesOf r.1.req).count a = 1 ∧ r.1.queue.count a = 0 := by
+    r.1.req = Elem.node a (keyOf c s a) :: s.req ∧ (nodesOf r.1.req).count a = 1 ∧ r.1.queue.count a = 0 := by
   intro r
   have hr : r = agentStep c s t a := rfl
   have hcan : canRun s a = true := by simp [canRun, hpc]
-  have h' : Inv c r.1 := inv_step hwf (inv_reachable hwf hs) t hcan
+  have h' : Inv c r.1 := inv_step (inv_reachable hs) t hcan
   unfold agentStep at hr
   simp only [hpc, hseen, if_true, hprev, if_false, hk, ne_eq, not_false_eq_true, and_self] at hr
   have hp : r.1.pc a = Pc.parked := by rw [hr]; simp [setPc]
   have hc := h'.cnt a
   rw [if_pos (show Listed r.1 a from Or.inl (by simp [hp, isWaiting]))] at hc
-  have hreq : r.1.req = Elem.node a :: s.req := by rw [hr]
+  have hreq : r.1.req = Elem.node a (keyOf c s a) :: s.req := by rw [hr]
   have hn : (nodesOf r.1.req).count a ≥ 1 := by rw [hreq]; simp
   refine ⟨hp, by rw [hr], by rw [hr]; simp, by simp [canRun, hp], hreq, by omega, by omega⟩
 
@@ -254,9 +258,9 @@ example : (trun cfgEx 100 (init cfgEx) [0, 1, 1]).cur 1 = some 1 ∧ (trun cfgEx
     guarded run in which no activity is a hand-over to `a`, `a` stays parked and *no activity of `a` exists* — on
     any thread, in particular not on the thread that published it.  Its code runs again only after the owner's
     hand-over made it `crit` (`c07_resume_once_step`). -/
-theorem c07_no_activity_while_parked (hwf : c.WF) (a : Nat) : ∀ (l : List (Nat × Nat)) (s : State), Reachable c s →
+theorem c07_no_activity_while_parked (a : Nat) : ∀ (l : List (Nat × Nat)) (s : State), Reachable c s →
     s.pc a = Pc.parked → Guarded c s l →
-    (∀ l1 p l2, l = l1 ++ p :: l2 → grantee (arun c s l1) p.2 ≠ some a) →
+    (∀ l1 p l2, l = l1 ++ p :: l2 → grantee c (arun c s l1) p.2 ≠ some a) →
     (arun c s l).pc a = Pc.parked ∧ ∀ p ∈ l, p.2 ≠ a := by
   intro l
   induction l with
@@ -264,7 +268,7 @@ theorem c07_no_activity_while_parked (hwf : c.WF) (a : Nat) : ∀ (l : List (Nat
   | cons p l ih =>
     intro s hs hp hg hno
     have hpa : p.2 ≠ a := by rintro rfl; have := hg.1; simp [canRun, hp] at this
-    have hstep := c07_resume_once_step hwf hs p.1 p.2 a hg.1 hp
+    have hstep := c07_resume_once_step hs p.1 p.2 a hg.1 hp
     have hp1 : (agentStep c s p.1 p.2).1.pc a = Pc.parked := by
       rcases hstep with h1 | h1
       · exact h1.1
@@ -283,17 +287,108 @@ theorem c07_no_activity_while_parked (hwf : c.WF) (a : Nat) : ∀ (l : List (Nat
 example : (arun cfgEx (init cfgEx) (runA.take 4)).pc 1 = Pc.parked ∧ (∀ p ∈ runA.drop 4, p.2 ≠ 1) ∧ sA.pc 1 = Pc.parked := by
   decide
 
+/-! ## ownership objects
+
+`s.held o`: ownership object `o` is armed for the mutex (`objOf c s a`: the object agent `a` uses in its current round — its
+own one or the slot shared by all contenders).  An ownership is *stored* into the object by the `crit` step (construction,
+move-assignment, `ownership(co_awaiter&&)`) or, for a callback contender granted as a waiter, by the callback running inside
+the previous owner's `unlock` (`handOver`); it is *given up* through the object by `release()` (discarded or awaited),
+destruction, assignment of an empty ownership, move into a temporary that is destroyed, move-assignment of the ownership of
+another (the agent's auxiliary) mutex — all of which enter `unlock` (`unlockStart`) only if the object is armed and disarm it
+first. -/
+
+/-- **Ownership objects and owners.** The object of an agent that has stored its ownership and not yet started to give it
+    up is armed; an armed object is the object of the unique owner, who is in that phase — so at most one object is armed
+    and nothing is armed while nobody owns the mutex; an ownership is never stored into an object that is still armed
+    (`bad = false`: the store never runs the deleter, in particular not when the next owner stores into the very object
+    the previous owner released from). -/
+theorem c07_ownership_objects (hs : Reachable c s) :
+    (∀ a, Armed c s a → s.held (objOf c s a) = true) ∧
+    (∀ o a, s.held o = true → Owner s a → Armed c s a ∧ objOf c s a = o) ∧
+    (∀ o1 o2, s.held o1 = true → s.held o2 = true → o1 = o2) ∧
+    ((∀ a, ¬ Owner s a) → ∀ o, s.held o = false) ∧ s.bad = false := by
+  have h := inv_reachable hs
+  refine ⟨h.heldA, h.heldO, ?_, h.heldN, h.noBad⟩
+  intro o1 o2 h1 h2
+  apply Classical.byContradiction
+  intro hne
+  by_cases hex : ∃ a, Owner s a
+  · obtain ⟨a, ha⟩ := hex
+    exact hne ((h.heldO o1 a h1 ha).2.symm.trans (h.heldO o2 a h2 ha).2)
+  · have := h.heldN (fun a ha => hex ⟨a, ha⟩) o1
+    rw [h1] at this; cases this
+
+/- scenario `runO1/runO2`: 0 keeps its ownership in the shared slot (object 4); it releases through the slot, and the callback
+   of the next owner 1 stores 1's ownership into the same slot inside 0's `unlock` -/
+example : Reachable cfgOw sO2 := reachable_of_run _ runO2 (by decide)
+example : sO1.held 4 = true ∧ Armed cfgOw sO1 0 ∧ objOf cfgOw sO1 0 = 4 := by decide
+example : (arun cfgOw (init cfgOw) (runO1 ++ [(0,0)])).held 4 = false ∧ sO2.held 4 = true ∧ sO2.pc 0 = Pc.relDone ∧
+    Armed cfgOw sO2 1 ∧ Owner sO2 1 ∧ objOf cfgOw sO2 1 = 4 ∧ sO2.bad = false := by decide
+
+/-- **Every way of giving the ownership up finds its object armed and enters `unlock`**: `release()` / destruction / move
+    into a temporary / assignment of an empty ownership (`afterCs`, rel ≠ `g`) and the hand-over-hand assignment (`asg`). -/
+theorem c07_release_armed (hs : Reachable c s) (x : Nat)
+    (hpc : (s.pc x = Pc.afterCs ∧ relOf c s x ≠ some Rel.g) ∨ s.pc x = Pc.asg) :
+    s.held (objOf c s x) = true ∧ unlocking c s x := by
+  have h := inv_reachable hs
+  have harm : Armed c s x := by rcases hpc with ⟨e, _⟩ | e <;> simp [Armed, e, isArmed]
+  have hh := h.heldA x harm
+  refine ⟨hh, ?_⟩
+  rcases hpc with ⟨e, hr⟩ | e
+  · exact Or.inl ⟨e, hr, hh⟩
+  · exact Or.inr (Or.inl ⟨e, hh⟩)
+
+example : sO3.pc 3 = Pc.asg ∧ sO3.held 3 = true ∧ sO3.aux 3 = true ∧ unlocking cfgOw sO3 3 := by decide
+
+/-- **A mutex whose every ownership has been released, destroyed or overwritten is free or handed over.** If no ownership
+    object is armed, the mutex is free (nobody owns it, `_requests = nullptr`, queue empty), or its owner is in a
+    transient phase: the acquisition / hand-over is in progress (the granted ownership is not yet stored: `build`, `crit`,
+    a woken blocking waiter) or its `unlock` is in progress (`relBuild`, `relHand`). -/
+theorem c07_all_released_free (hs : Reachable c s) (hnone : ∀ o, s.held o = false) :
+    (s.req = [] ∧ s.queue = [] ∧ ∀ a, ¬ Owner s a) ∨
+    ∃ a, Owner s a ∧ (s.pc a = Pc.build ∨ s.pc a = Pc.crit ∨ s.pc a = Pc.relBuild ∨ s.pc a = Pc.relHand ∨
+      ((s.pc a = Pc.waitFlag ∨ s.pc a = Pc.blocked) ∧ s.flag a = true ∧ flOf c s a ≠ some Flavour.cb)) := by
+  have h := inv_reachable hs
+  by_cases hex : ∃ a, Owner s a
+  · right
+    obtain ⟨a, ha⟩ := hex
+    refine ⟨a, ha, ?_⟩
+    have hna : ¬ Armed c s a := by
+      intro harm; have := h.heldA a harm; rw [hnone] at this; cases this
+    unfold Owner at ha
+    unfold Armed at hna
+    generalize s.pc a = p at *
+    cases p <;> simp_all [isOwner, isArmed]
+    all_goals (intro e; simp [e] at hna)
+  · left
+    have hno : ∀ a, ¬ Owner s a := fun a ha => hex ⟨a, ha⟩
+    exact ⟨(h.free hno).1, (h.free hno).2, hno⟩
+
+/-- at quiescence nothing is armed, every auxiliary mutex is free, the mutex is free -/
+theorem c07_quiescent_released (hs : Reachable c s) (hd : ∀ a, s.pc a = Pc.done) :
+    (∀ o, s.held o = false) ∧ (∀ a, s.aux a = false) ∧ s.req = [] ∧ s.queue = [] := by
+  have h := inv_reachable hs
+  have hno : ∀ a, ¬ Owner s a := fun a ha => by simp [Owner, hd a, isOwner] at ha
+  refine ⟨h.heldN hno, ?_, (h.free hno).1, (h.free hno).2⟩
+  intro a
+  cases ha : s.aux a with
+  | false => rfl
+  | true => have := (h.auxOk a ha).2; simp [hd a] at this
+
+example : Reachable cfgOw sOZ ∧ (∀ a, a < 4 → sOZ.pc a = Pc.done) ∧ (∀ o, o < 5 → sOZ.held o = false) ∧ sOZ.req = [] :=
+  ⟨reachable_of_run _ runOZ (by decide), by decide⟩
+
 /-! ## transfer to the OS-thread level (the level the harness exercises) -/
 
 /-- **C07 holds for every schedule of OS threads**: after any schedule `ts` of enabled threads (executor glue
     `threadStep`, any fuel) from `init c` at most one agent is an owner, the critical-section counter is at most one,
     every request has been granted at most once. -/
-theorem c07_thread_level (hwf : c.WF) (fuel : Nat) (ts : List Nat) (hg : TGuarded c fuel (init c) ts) :
+theorem c07_thread_level (hwf : c.WFT) (fuel : Nat) (ts : List Nat) (hg : TGuarded c fuel (init c) ts) :
     let s := trun c fuel (init c) ts
-    (∀ a b, Owner s a → Owner s b → a = b) ∧ s.incs ≤ 1 ∧ s.grantReqs.Nodup := by
+    (∀ a b, Owner s a → Owner s b → a = b) ∧ s.incs ≤ 1 ∧ s.grantReqs.Nodup ∧ s.bad = false := by
   intro s
   have hs : Reachable c s := trun_init_reachable hwf fuel ts hg
-  exact ⟨c07_mutex hwf hs, c07_mutex_incs hwf hs, c07_grantReqs_nodup hwf hs⟩
+  exact ⟨c07_mutex hs, c07_mutex_incs hs, c07_grantReqs_nodup hs, (inv_reachable hs).noBad⟩
 
 example : TGuarded cfgEx 100 (init cfgEx) schedB ∧ Owner (trun cfgEx 100 (init cfgEx) schedB) 1 ∧
     (trun cfgEx 100 (init cfgEx) schedB).grantReqs = [(0, 0), (1, 0)] := by decide
